@@ -636,3 +636,288 @@ Proof.
   intros vs Hvs Hlen. split;
     [apply int_scalar_roundtrip | apply int_batch_roundtrip]; assumption.
 Qed.
+
+(** * C. timestamps *)
+
+Lemma deltas64_u64 ts : forall prev, Forall (fun w => w < 2 ^ 64) (deltas64 prev ts).
+Proof.
+  induction ts as [|t r IH]; intro prev; cbn [deltas64]; constructor; [apply sub64_lt|apply IH].
+Qed.
+
+Lemma deltas64_length ts : forall prev, length (deltas64 prev ts) = length ts.
+Proof. induction ts as [|t r IH]; intro prev; cbn [deltas64 length]; [reflexivity|]. rewrite IH. reflexivity. Qed.
+
+Lemma sums64_deltas64 ts : forall prev, prev < 2 ^ 64 -> Forall (fun v => v < 2 ^ 64) ts ->
+  sums64 prev (deltas64 prev ts) = ts.
+Proof.
+  induction ts as [|t r IH]; intros prev Hp H; [reflexivity|].
+  inversion H as [|? ? Ht Hr]; subst.
+  cbn [deltas64 sums64]. rewrite add64_sub64 by assumption. f_equal. apply IH; assumption.
+Qed.
+
+Lemma sums64_repeat d k : forall prev,
+  sums64 prev (repeat d k) = rle_acc k (add64 prev d) d.
+Proof.
+  induction k as [|k IH]; intro prev; cbn [repeat sums64 rle_acc]; [reflexivity|].
+  f_equal. apply IH.
+Qed.
+
+(** ** the divisor *)
+Lemma pow10_nz e : 10 ^ e <> 0.
+Proof. apply N.pow_nonzero. discriminate. Qed.
+
+Lemma pow10_divide e' e : e' <= e -> (10 ^ e' | 10 ^ e).
+Proof.
+  intro H. exists (10 ^ (e - e')). rewrite <- N.pow_add_r. f_equal. lia.
+Qed.
+
+Lemma reduce_div_spec fuel : forall e v, e <= N.of_nat fuel ->
+  exists e', reduce_div fuel (10 ^ e) e v = (10 ^ e', e') /\ e' <= e /\ (10 ^ e' | v).
+Proof.
+  induction fuel as [|f IH]; intros e v He.
+  - assert (e = 0) by lia. subst e. exists 0. cbn [reduce_div].
+    split; [reflexivity|]. split; [lia|]. rewrite N.pow_0_r. apply N.divide_1_l.
+  - cbn [reduce_div]. pose proof (pow10_nz e) as Hnz.
+    destruct (N.ltb_spec 1 (10 ^ e)) as [H1|H1]; cbn [andb].
+    + destruct (N.eqb_spec (v mod 10 ^ e) 0) as [H2|H2]; cbn [negb].
+      * exists e. split; [reflexivity|]. split; [lia|]. apply N.mod_divide; assumption.
+      * assert (He0 : e <> 0) by (intros ->; rewrite N.pow_0_r in H1; lia).
+        assert (Ed : 10 ^ e / 10 = 10 ^ (e - 1)).
+        { replace e with (N.succ (e - 1)) at 1 by lia. rewrite N.pow_succ_r', N.mul_comm.
+          apply N.div_mul. discriminate. }
+        rewrite Ed. destruct (IH (e - 1) v ltac:(lia)) as (e' & E & Hle & Hd).
+        exists e'. split; [exact E|]. split; [lia|exact Hd].
+    + exists e. split; [reflexivity|]. split; [lia|].
+      replace (10 ^ e) with 1 by lia. apply N.divide_1_l.
+Qed.
+
+Lemma div_step_spec e v : e <= 12 ->
+  exists e', div_step (10 ^ e, e) v = (10 ^ e', e') /\ e' <= e /\ (10 ^ e' | v).
+Proof. intro H. unfold div_step. cbn [fst snd]. apply reduce_div_spec. exact H. Qed.
+
+Lemma Forall_divide_weaken e' e l : e' <= e ->
+  Forall (fun v => (10 ^ e | v)) l -> Forall (fun v => (10 ^ e' | v)) l.
+Proof.
+  intros H Hf. eapply Forall_impl; [|exact Hf]. cbv beta. intros v Hv.
+  eapply N.divide_trans; [apply pow10_divide; exact H|exact Hv].
+Qed.
+
+Lemma div_fold_right rest :
+  exists e, fold_right (fun v acc => div_step acc v) div0 rest = (10 ^ e, e)
+            /\ e <= 12 /\ Forall (fun v => (10 ^ e | v)) rest.
+Proof.
+  induction rest as [|v r (e & E & He & Hf)]; cbn [fold_right].
+  - exists 12. split; [reflexivity|]. split; [lia|constructor].
+  - rewrite E. destruct (div_step_spec e v He) as (e' & E' & Hle & Hd).
+    exists e'. split; [exact E'|]. split; [lia|].
+    constructor; [exact Hd|]. eapply Forall_divide_weaken; eassumption.
+Qed.
+
+Lemma div_fold_left rest : forall e0, e0 <= 12 ->
+  exists e, fold_left div_step rest (10 ^ e0, e0) = (10 ^ e, e)
+            /\ e <= e0 /\ Forall (fun v => (10 ^ e | v)) rest.
+Proof.
+  induction rest as [|v r IH]; intros e0 He0; cbn [fold_left].
+  - exists e0. split; [reflexivity|]. split; [lia|constructor].
+  - destruct (div_step_spec e0 v He0) as (e1 & E1 & Hle1 & Hd1). rewrite E1.
+    destruct (IH e1 ltac:(lia)) as (e & E & Hle & Hf).
+    exists e. split; [exact E|]. split; [lia|].
+    constructor; [|exact Hf].
+    eapply N.divide_trans; [apply pow10_divide; exact Hle|exact Hd1].
+Qed.
+
+Lemma mul64_div v dv : dv <> 0 -> (dv | v) -> v < 2 ^ 64 -> mul64 (v / dv) dv = v.
+Proof.
+  intros Hnz [k ->] Hv. rewrite N.div_mul by exact Hnz. unfold mul64.
+  rewrite W64_eq. apply N.mod_small. exact Hv.
+Qed.
+
+Lemma map_mul64_div e l :
+  Forall (fun v => (10 ^ e | v)) l -> Forall (fun v => v < 2 ^ 64) l ->
+  map (fun d => mul64 d (10 ^ e)) (map (fun v => v / 10 ^ e) l) = l.
+Proof.
+  intros Hd Hu. rewrite map_map. rewrite <- (map_id l) at 2. apply map_ext_in.
+  intros v Hv. rewrite Forall_forall in Hd, Hu.
+  apply mul64_div; [apply pow10_nz|apply Hd; exact Hv|apply Hu; exact Hv].
+Qed.
+
+Lemma Forall_good_div dv l : dv <> 0 -> Forall good l -> Forall good (map (fun v => v / dv) l).
+Proof.
+  intros Hnz H. apply Forall_forall. intros x Hx. apply in_map_iff in Hx as (v & <- & Hv).
+  rewrite Forall_forall in H. specialize (H v Hv). unfold good in *.
+  eapply N.le_lt_trans; [|exact H]. apply N.div_le_upper_bound; [exact Hnz|]. nia.
+Qed.
+
+(** header byte *)
+Lemma hdr_div k e : e < 16 -> (k * 16 + e) / 16 = k.
+Proof. intro H. rewrite N.div_add_l by discriminate. rewrite N.div_small by exact H. lia. Qed.
+Lemma hdr_mod k e : e < 16 -> (k * 16 + e) mod 16 = e.
+Proof. intro H. rewrite N.add_comm, N.mod_add by discriminate. apply N.mod_small. exact H. Qed.
+
+(** ** the three block formats, decoded *)
+Lemma time_decode_raw strict ds : Forall (fun w => w < 2 ^ 64) ds ->
+  time_decode strict ((timeUncompressed * 16) :: words_bytes ds) = Some (sums64 0 ds).
+Proof.
+  intro Hds. unfold time_decode. cbv zeta.
+  change (timeUncompressed * 16 / 16 =? timeUncompressed) with true. cbv iota.
+  rewrite bytes_words_all by exact Hds. reflexivity.
+Qed.
+
+Lemma time_decode_packed strict e t0 ws : e <= 12 -> t0 < 2 ^ 64 ->
+  Forall (fun w => w < 2 ^ 64) ws ->
+  time_decode strict ((timeCompressedPackedSimple * 16 + e) :: be64 t0 ++ words_bytes ws)
+  = Some (t0 :: sums64 t0 (map (fun d => mul64 d (10 ^ e)) (decode_all ws))).
+Proof.
+  intros He Ht Hws. rewrite <- words_bytes_cons.
+  unfold time_decode. cbv zeta. rewrite hdr_div, hdr_mod by lia.
+  change (timeCompressedPackedSimple =? timeUncompressed) with false.
+  change (timeCompressedPackedSimple =? timeCompressedPackedSimple) with true. cbv iota.
+  rewrite bytes_words_all by (constructor; assumption). reflexivity.
+Qed.
+
+Lemma time_decode_rle strict e t0 v n : e <= 12 -> t0 < 2 ^ 64 -> v < 2 ^ 64 -> n < 2 ^ 64 ->
+  time_decode strict ((timeCompressedRLE * 16 + e) :: be64 t0 ++ put_uvarint v ++ put_uvarint n)
+  = Some (rle_acc (N.to_nat n) t0 (mul64 v (10 ^ e))).
+Proof.
+  intros He Ht Hv Hn.
+  assert (Eb : bytes_words 1 (be64 t0 ++ put_uvarint v ++ put_uvarint n)
+               = ([t0], put_uvarint v ++ put_uvarint n)).
+  { apply (bytes_words_exact [t0]). constructor; [exact Ht|constructor]. }
+  unfold time_decode. cbv zeta. rewrite hdr_div, hdr_mod by lia.
+  change (timeCompressedRLE =? timeUncompressed) with false.
+  change (timeCompressedRLE =? timeCompressedPackedSimple) with false.
+  change (timeCompressedRLE =? timeCompressedRLE) with true. cbv iota.
+  rewrite Eb. rewrite get_put_uvarint by exact Hv.
+  rewrite <- (app_nil_r (put_uvarint n)). rewrite get_put_uvarint by exact Hn.
+  reflexivity.
+Qed.
+
+Section TimeRoundtrip.
+  Variables (t0 : N) (r : list N).
+  Hypothesis Ht0 : t0 < 2 ^ 64.
+  Hypothesis Hr : Forall (fun v => v < 2 ^ 64) r.
+  Hypothesis Hlen : N.of_nat (length (t0 :: r)) < 2 ^ 64.
+
+  Let rest := deltas64 t0 r.
+
+  Lemma time_ds : deltas64 0 (t0 :: r) = t0 :: rest.
+  Proof. cbn [deltas64]. rewrite sub64_0_r by exact Ht0. reflexivity. Qed.
+
+  Lemma time_rest_sums : sums64 t0 rest = r.
+  Proof. apply sums64_deltas64; assumption. Qed.
+
+  Lemma time_rest_u64 : Forall (fun w => w < 2 ^ 64) rest.
+  Proof. apply deltas64_u64. Qed.
+
+  Lemma time_raw_ok strict :
+    time_decode strict ((timeUncompressed * 16) :: words_bytes (t0 :: rest)) = Some (t0 :: r).
+  Proof.
+    rewrite time_decode_raw by (constructor; [exact Ht0|apply time_rest_u64]).
+    cbn [sums64]. rewrite add64_0_l by exact Ht0. rewrite time_rest_sums. reflexivity.
+  Qed.
+
+  Lemma time_rle_ok strict e dv : e <= 12 -> dv = 10 ^ e ->
+    Forall (fun v => (dv | v)) rest -> all_same rest = true -> (1 <? length (t0 :: r))%nat = true ->
+    time_decode strict (time_rle_bytes e t0 (hd 0 rest) dv (N.of_nat (length (t0 :: r))))
+    = Some (t0 :: r).
+  Proof.
+    intros He -> Hd Hs Hl. pose proof time_rest_sums as Hsum. pose proof time_rest_u64 as Hu.
+    assert (Hrl : length rest = length r) by apply deltas64_length.
+    destruct rest as [|d1 rs] eqn:Erest.
+    { destruct r; [discriminate|discriminate]. }
+    cbn [hd]. cbn [all_same] in Hs. apply forallb_eqb_repeat in Hs.
+    pose proof (Forall_inv Hd) as Hd1. pose proof (Forall_inv Hu) as Hu1. cbv beta in Hd1, Hu1.
+    unfold time_rle_bytes.
+    rewrite time_decode_rle; [|exact He|exact Ht0| |exact Hlen].
+    2:{ eapply N.le_lt_trans; [|exact Hu1]. apply N.div_le_upper_bound; [apply pow10_nz|].
+        pose proof (pow10_nz e). nia. }
+    rewrite mul64_div by (try apply pow10_nz; assumption).
+    rewrite Nat2N.id. f_equal. cbn [length rle_acc]. f_equal.
+    cbn [length] in Hrl. rewrite <- Hrl. symmetry. rewrite <- Hsum. rewrite Hs at 1.
+    change (d1 :: repeat d1 (length rs)) with (repeat d1 (S (length rs))).
+    apply sums64_repeat.
+  Qed.
+
+  Lemma time_packed_ok enc e :
+    (forall l, Forall good l -> exists ws, enc l = Some ws /\ decode_all ws = l) ->
+    (forall l ws, enc l = Some ws -> Forall (fun w => w < 2 ^ 64) ws) ->
+    e <= 12 -> Forall (fun v => (10 ^ e | v)) rest -> Forall good rest ->
+    exists b,
+      match enc (map (fun v => v / 10 ^ e) rest) with
+      | Some ws => Some ((timeCompressedPackedSimple * 16 + e) :: be64 t0 ++ words_bytes ws)
+      | None => None
+      end = Some b
+      /\ time_decode_scalar b = Some (t0 :: r) /\ time_decode_batch b = Some (t0 :: r).
+  Proof.
+    intros Hrt Hu He Hd Hg.
+    destruct (Hrt _ (Forall_good_div (10 ^ e) rest (pow10_nz e) Hg)) as (ws & Ee & Ed).
+    rewrite Ee. eexists. split; [reflexivity|].
+    unfold time_decode_scalar, time_decode_batch.
+    rewrite !time_decode_packed by (try exact He; try exact Ht0; eapply Hu; exact Ee).
+    rewrite Ed, map_mul64_div by (try exact Hd; apply time_rest_u64).
+    rewrite time_rest_sums. split; reflexivity.
+  Qed.
+
+  Lemma time_scalar_roundtrip_cons :
+    exists b, time_encode_scalar (t0 :: r) = Some b
+              /\ time_decode_scalar b = Some (t0 :: r) /\ time_decode_batch b = Some (t0 :: r).
+  Proof.
+    unfold time_encode_scalar. rewrite time_ds. cbv zeta. cbn [tl hd].
+    destruct (div_fold_right rest) as (e & E & He & Hd). rewrite E.
+    destruct (all_same rest && (1 <? length (t0 :: r))%nat) eqn:Ec.
+    { apply andb_true_iff in Ec as [Hs Hl]. eexists. split; [reflexivity|].
+      unfold time_decode_scalar, time_decode_batch.
+      rewrite !time_rle_ok by (try reflexivity; assumption). split; reflexivity. }
+    destruct (MaxValue <? fold_left N.max rest 0) eqn:Ex.
+    { eexists. split; [reflexivity|].
+      unfold time_decode_scalar, time_decode_batch. rewrite !time_raw_ok. split; reflexivity. }
+    apply time_packed_ok; try assumption.
+    - apply stream_encode_roundtrip.
+    - apply stream_encode_u64.
+    - apply fold_max_good. exact Ex.
+  Qed.
+
+  Lemma time_batch_roundtrip_cons :
+    exists b, time_encode_batch (t0 :: r) = Some b
+              /\ time_decode_scalar b = Some (t0 :: r) /\ time_decode_batch b = Some (t0 :: r).
+  Proof.
+    unfold time_encode_batch. rewrite time_ds. cbv zeta. cbn [tl hd].
+    destruct ((1 <? length (t0 :: r))%nat && all_same rest) eqn:Ec.
+    { apply andb_true_iff in Ec as [Hl Hs].
+      unfold div0. destruct (div_step_spec 12 (hd 0 rest) ltac:(lia)) as (e & E & He & Hd).
+      rewrite E.
+      assert (Hall : Forall (fun v => (10 ^ e | v)) rest).
+      { destruct rest as [|d1 rs]; [constructor|]. cbn [hd] in Hd. cbn [all_same] in Hs.
+        apply forallb_eqb_repeat in Hs. rewrite Hs.
+        change (d1 :: repeat d1 (length rs)) with (repeat d1 (S (length rs))).
+        apply Forall_forall. intros x Hx. apply repeat_spec in Hx. subst. exact Hd. }
+      eexists. split; [reflexivity|].
+      unfold time_decode_scalar, time_decode_batch.
+      assert (E10 : 10 ^ e = 10 ^ (if 1 <? 10 ^ e then e else 0)).
+      { destruct (N.ltb_spec 1 (10 ^ e)) as [H1|H1]; [reflexivity|].
+        pose proof (pow10_nz e). rewrite N.pow_0_r. lia. }
+      rewrite !time_rle_ok; try assumption; try (split; reflexivity).
+      all: destruct (1 <? 10 ^ e); lia. }
+    destruct (MaxValue <? fold_left N.max rest 0) eqn:Ex.
+    { eexists. split; [reflexivity|].
+      unfold time_decode_scalar, time_decode_batch. rewrite !time_raw_ok. split; reflexivity. }
+    unfold div0. destruct (div_fold_left rest 12 ltac:(lia)) as (e & E & He & Hd). rewrite E.
+    apply time_packed_ok; try assumption.
+    - apply encode_all_roundtrip.
+    - apply encode_all_u64.
+    - apply fold_max_good. exact Ex.
+  Qed.
+End TimeRoundtrip.
+
+Theorem time_roundtrip : forall ts,
+  Forall (fun v => v < 2 ^ 64) ts -> N.of_nat (length ts) < 2 ^ 64 ->
+  (exists b, time_encode_scalar ts = Some b
+             /\ time_decode_scalar b = Some ts /\ time_decode_batch b = Some ts)
+  /\ (exists b, time_encode_batch ts = Some b
+                /\ time_decode_scalar b = Some ts /\ time_decode_batch b = Some ts).
+Proof.
+  intros ts Hts Hlen. destruct ts as [|t0 r].
+  { split; exists []; repeat split; reflexivity. }
+  inversion Hts as [|? ? Ht0 Hr]; subst.
+  split; [apply time_scalar_roundtrip_cons | apply time_batch_roundtrip_cons]; assumption.
+Qed.
